@@ -6,6 +6,6 @@ B(x) == IF x THEN 1 ELSE 0
 Feasible == Total(d) <= 3 * 1048576 /\ (d.escaped => Total(d) + d.root <= 1048576 + 65)
 Emit == Feasible =>
   PrintT(<<"REPLAY", ToJson([rawOver |-> B(d.rawOver), shape |-> d.shape, root |-> d.root, nodes |-> d.nodes,
-                              nodeLen |-> d.nodeLen, idx |-> d.idx, escaped |-> B(d.escaped), extra |-> B(d.extra),
+                              nodeLen |-> d.nodeLen, idx |-> d.idx, escaped |-> B(d.escaped), extra |-> B(d.extra), mb |-> B(d.mb),
                               verdict |-> ParseVerdict(d), validate |-> B(ValidateOk(d))])>>)
 =============================================================================
